@@ -46,6 +46,7 @@ func ruleDedup(c *core.Ctx) {
 		if q == 3 {
 			key = "three declarations under one name, query equal to none"
 		}
+		noteRuns(c, runs)
 		if !complete {
 			c.Undecided("A-DEDUP", fn, key, "", "fork budget")
 			continue
